@@ -29,7 +29,7 @@ CLAIMED = {
   "operations' observations), and C01_keyed_views_stay_sorted. "
   "C01_dispatcher_tie / _all_ops prove that the dispatcher the extracted runner executes returns what descent + operation return. The "
   "flat-shape theorems of the first round remain as the special case. UnsizedMap insert on an existing key, UnsizedString, non-default and "
-  "failing initializers and enums are tied by correspondence: 1.5k (quick) / 40k (thorough) generated histories on 25 Rust shapes (four with generated enums: variant switches, operations inside the live variant) nested to "
+  "failing initializers and enums are tied by correspondence: 1.5k (quick) / 12k (thorough) generated histories on 25 Rust shapes (four with generated enums: variant switches, operations inside the live variant) nested to "
   "depth 3 run through the real ExclusiveWrapper API and the extracted machine (0 disagreements), judged against an independent "
   "plain-Vec/BTreeMap oracle in Python.",
   "PARTIAL (stated in Properties/C01.v): UnsizedString, "
@@ -43,7 +43,7 @@ CLAIMED = {
   "after ANY history of list operations at any nesting depth - failing operations included - the first data_len bytes are exactly "
   "encode(value) and data_len = byte_size(value) (C02_general_canonical_after_any_history, from the refinement invariant RepF); for "
   "ALL shapes canonical encodings have the announced size, are injective and are read back as the same value by any reader "
-  "(C02_encode_injective, C02_any_reader_sees_the_value). Tie: after every step of 1.2k (quick) / 40k (thorough) histories the harness "
+  "(C02_encode_injective, C02_any_reader_sees_the_value). Tie: after every step of 1.2k (quick) / 12k (thorough) histories the harness "
   "compares the account bytes with from_owned(value read back) byte for byte and the reported length with byte_size, and the extracted "
   "machine must agree on the checksum of the bytes; histories are biased to lists / maps of unsized elements where unsized_size, the "
   "offset table and the trailing length copy live.",
@@ -70,7 +70,7 @@ CLAIMED = {
   "any write; the state reached by the descent still represents the same value with canonical bytes and exact length; histories with "
   "failures in them keep refining the owned model step by step (C06_general_failure_is_clean, C06_general_continue_after_failures; "
   "C06_all_ops_failure_is_clean / C06_all_ops_continue_after_failures for the full operation set incl. element-level insert / remove of lists of unsized elements, whose "
-  "checks all precede the first write; flat-shape theorems as the special case). Tie: 1.8k (quick) / 40k (thorough) histories with growth refused during step k (k swept "
+  "checks all precede the first write; flat-shape theorems as the special case). Tie: 1.8k (quick) / 12k (thorough) histories with growth refused during step k (k swept "
   "over every step of 21 growth-heavy histories) and a generator biased to failing operations; after a failed operation bytes, length, "
   "live accessors and a fresh parse are observed and further operations applied; model, implementation and the plain oracle must agree. "
   "Second stage on native pinocchio accounts where AccountInfo::resize_unchecked itself refuses the growth.",
@@ -110,7 +110,7 @@ CLAIMED = {
   "pointer assertion fires, un-overlapped borrows succeed and observe the current value, growth succeeds exactly "
   "up to the allowance and errs (state unchanged) beyond it, overlapping borrows are refused. The model is tied "
   "to /repo on every run by running the same seeded histories (1.5k quick / 40k thorough, sizes 0..40 KiB, "
-  "shrink-beyond-allowance-and-grow-back forced) through the extracted model and a native AccountInfo driving "
+  "shrink-beyond-allowance-and-grow-back forced; four account kinds: 1-3 length-prefixed byte lists and one prefix-less RemainingBytes body that can be emptied down to the bare discriminant) through the extracted model and a native AccountInfo driving "
   "the real Account<T>; the property predicate is also evaluated directly on the implementation.",
   "Trusted: Coq kernel; extraction (ExtrOcamlBasic) + runner/driver.ml; harness (native AccountInfo builder); "
   "tools/gen_constants.py. Modelled, not verified: pinocchio's borrow-state bit layout (abstracted to a flag and a "
